@@ -33,7 +33,8 @@ class BoxItem(daglish.PathElement):
     return f'.items[{self.index}]'
 
   def follow(self, container):
-    return container.items[self.index]
+    # same value flatten() hands to the traversal: a fresh temporary wrapper
+    return [container.items[self.index]]
 
   def __lt__(self, other):
     if type(self) is type(other):
